@@ -1,7 +1,9 @@
 (** C02  Every cooler any operation writes is a structurally valid CSR collection.
     Only statements, each closed by [exact] of a lemma proved in Proofs/IndexProofs.v.
     Model: Model/Index.v (util.rlencode, create._create.index_pixels / index_bins). *)
-From Cooler Require Import Model.Bins Model.Index Proofs.PixelsProofs Proofs.BinsProofs Proofs.IndexProofs.
+From Cooler Require Import Model.Merge Model.Coarsen Model.Bins Model.Index.
+From Cooler Require Import Proofs.PixelsProofs Proofs.BinsProofs Proofs.MergeProofs Proofs.CoarsenProofs Proofs.IndexProofs Proofs.HistoryProofs.
+From Cooler Require Model.Zoom Proofs.ZoomProofs.
 From Coq Require Import Sorted.
 
 (** the block-wise run-length encoder equals the one-shot encoder for every array and every
@@ -171,6 +173,80 @@ Theorem C02_create_unchecked_refuted :
 Proof. exact create_unchecked_refuted. Qed.
 Print Assumptions C02_create_unchecked_refuted.
 
+(* ============================================================ producers discharged (integration) *)
+(** The hypotheses of C02_history_valid_given_producers are discharged from the producers' own theorems
+    (C07 merger_exact/merge_g_total, C06 unordered_correct, C08 coarsen_canon/coarsen_bins_spec/
+    coarsen_spec_inrange, C09 zoom_level_eq_direct); Proofs/HistoryProofs.v.  [of_csr c] is what the merger
+    reads of a stored collection (indexes/bin1_offset, pixel table); [mk_cool n px] is what the merge/ingest
+    models store (table + Merge.index_of); the last conjunct of each theorem says that this is exactly the
+    index index_pixels computes. *)
+
+(** merge_coolers of valid collections over one bin table and storage mode: never fails, stores the
+    canonical aggregate of all input pixels, the result is a valid collection — every buffer size *)
+Theorem C02_merge_valid : forall (nc : Z) (chroms : list Z) (symm : bool) (inputs : list Index.cooler) (buf : Z),
+  inputs <> [] -> 1 <= zlen chroms -> 0 <= nc -> 0 <= buf ->
+  Forall ValidCSR inputs -> Forall (SameAxes nc chroms symm) inputs ->
+  let n := length chroms in
+  let o := {| o_bounds := true; o_triu := symm; o_dup := true; o_sort := false |} in
+  let out := aggregate (concat (map pixels_of inputs)) in
+  merge_g n o (fun _ => true) sumZ (map of_csr inputs) buf = Ok (mk_cool n out) /\
+  exists c, create_model nc chroms out symm = Some c /\ ValidCSR c /\ pixels_of c = out /\
+            SameAxes nc chroms symm c /\ of_csr c = mk_cool n out.
+Proof. exact merge_valid. Qed.
+Print Assumptions C02_merge_valid.
+
+(** create_cooler(ordered=False) on chunks that meet the documented input conditions: never fails, stores
+    the canonical aggregate of all records, the result is a valid collection — every chunking, chunk
+    order, mergebuf and max_merge *)
+Theorem C02_unordered_valid : forall (nc : Z) (chroms : list Z) (symm : bool) (o : copts)
+    (chunks : list (list pixel)) (buf max_merge : Z),
+  chunks <> [] -> 1 <= zlen chroms -> 0 <= nc -> 0 <= buf ->
+  NonDecr chroms -> (forall x, In x chroms -> 0 <= x < nc) ->
+  (o_triu o = true -> symm = true) ->
+  let n := length chroms in
+  Forall (GoodChunk n symm o) chunks ->
+  let out := aggregate (concat chunks) in
+  unordered_g n o (fun _ => true) sumZ chunks buf (unordered_edges (length chunks) max_merge) = Ok (mk_cool n out) /\
+  exists c, create_model nc chroms out symm = Some c /\ ValidCSR c /\ pixels_of c = out /\
+            SameAxes nc chroms symm c /\ of_csr c = mk_cool n out.
+Proof. exact unordered_valid. Qed.
+Print Assumptions C02_unordered_valid.
+
+(** coarsen_cooler of a valid collection: valid new bin table, canonical aggregate of the re-keyed pixels,
+    valid collection — every factor k >= 1, chunk size, batch size *)
+Theorem C02_coarsen_valid : forall (blocks : list (list Bins.bin)) (c : Index.cooler) (k chunksize batchsize : Z),
+  EntryOK (blocks, c) -> 1 <= k -> 1 <= chunksize -> 1 <= batchsize ->
+  let sizes := map chrom_end blocks in
+  let r := coarsen_cooler (concat blocks) sizes (pixels_of c) k chunksize batchsize in
+  let nb := map (coarsen_block k) blocks in
+  fst r = concat nb /\
+  snd r = aggregate (map (rekey (index_table (map zlen blocks) k)) (pixels_of c)) /\
+  exists c', create_model (zlen nb) (map bchrom (concat nb)) (snd r) (symmetric_upper c) = Some c' /\
+             EntryOK (nb, c') /\ pixels_of c' = snd r /\ symmetric_upper c' = symmetric_upper c.
+Proof. exact coarsen_valid. Qed.
+Print Assumptions C02_coarsen_valid.
+
+(** every level zoomify_cooler writes from valid bases is a copied base or what one coarsen step stores *)
+Theorem C02_zoom_levels_valid : forall (ebases : list (Z * entry)) (res : list Z) (cs bs : Z) lv,
+  1 <= cs -> 1 <= bs -> ZoomProofs.Positive res -> ZoomProofs.Positive (map fst ebases) ->
+  Forall (fun be => EntryOK (snd be)) ebases ->
+  Zoom.zoomify_cooler (map (fun be => (fst be, as_zoom (snd be))) ebases) res cs bs = Some lv ->
+  forall r zc, Zoom.lookup r lv = Some zc ->
+    exists e, EntryOK e /\ zc = as_zoom e /\
+      ((exists b, In (b, e) ebases) \/
+       (exists b e0 k, In (b, e0) ebases /\ 2 <= k /\ r = b * k /\ Step [e0] ([e0] ++ [e]))).
+Proof. exact zoom_levels_valid. Qed.
+Print Assumptions C02_zoom_levels_valid.
+
+(** C02 over histories with NO hypothesis about the producers: along every sequence of create (sorted
+    stream, any chunking) / unordered create / merge / coarsen (= zoom level) operations starting from
+    nothing — the rules of [Step] carry only the documented conditions on the user's input and "this is
+    what the producer's model computed" — every collection written is valid, over a valid bin table *)
+Theorem C02_history_valid : forall st : list entry,
+  Steps [] st -> Forall EntryOK st /\ Forall (fun e => ValidCSR (snd e)) st.
+Proof. intros st H. split; [exact (history_valid_all [] st (Forall_nil _) H)|exact (history_from_nothing st H)]. Qed.
+Print Assumptions C02_history_valid.
+
 (** ------------------------------------------------------------------ non-vacuity *)
 Example ex_C02_blocks_cross_runs :
   rlencode [0;0;1;1;1;3] (Some 2) = Some ([0;2;5], [2;3;1], [0;1;3]) /\
@@ -204,3 +280,12 @@ Example ex_C02_checker_discriminates :
   valid_csr_b (mkCooler 2 1 [0;0] [0;0;1] [0;1;1] [5;6;7] [0;2;3] [0;2] 2 18 true) = false /\
   valid_csr_b (mkCooler 2 1 [0;0] [1;0;1] [1;1;1] [5;6;7] [0;1;3] [0;2] 3 18 false) = false.
 Proof. vm_compute. repeat split; reflexivity. Qed.
+
+(** a concrete history create -> unordered create -> merge -> coarsen exists (the Step rules are satisfiable),
+    and its last collection holds the coarsened merged matrix *)
+Example ex_C02_history :
+  Steps [] [(hx_blocks, hx_c1); (hx_blocks, hx_c2); (hx_blocks, hx_c3); (map (coarsen_block 2) hx_blocks, hx_c4)] /\
+  pixels_of hx_c3 = [((0,0),1); ((0,1),5); ((0,2),3); ((2,3),3); ((3,3),5)] /\
+  pixels_of hx_c4 = [((0,0),6); ((0,1),3); ((1,2),3); ((2,2),5)] /\
+  valid_csr_b hx_c4 = true.
+Proof. exact history_example. Qed.
